@@ -100,6 +100,48 @@ def run_group(repo, unit, g, variant_defs=(), tag=''):
     if rc != 0:
         res['detail'] = 'goto-cc failed: ' + (se + so)[-1500:]
         return res
+    # 2a. link the CPROVER C library first (goto-instrument --dfcc crashes in its own library linking step on
+    #     some pipe translation units: invariant 'symbol expressions with source locations')
+    cmd = ['goto-instrument', '--add-library', 'a.gb', 'a1.gb']
+    rc, so, se, dt = sh(cmd, 300, cwd=wd)
+    if rc != 0:
+        res['detail'] = 'goto-instrument --add-library failed: ' + (se + so)[-1500:]
+        return res
+    # 2b. restrict function-pointer call sites to the targets the unit names for each interface member
+    #     (CBMC's default candidate set is every address-taken function of a loosely compatible type, which
+    #     sends e.g. udict->mgr->udict_control(...) into the pipe's own control function). The restriction is
+    #     itself an obligation: goto-instrument asserts that the pointer is one of the listed targets.
+    fp = dict(unit.get('fp', {})); fp.update(g.get('fp', {}))
+    src_gb = 'a1.gb'
+    if fp:
+        rc, so, se, dt = sh(['goto-instrument', '--show-goto-functions', 'a1.gb'], 300, cwd=wd)
+        existing = set(re.findall(r'^([\w$]+) /\* ', so, re.M))
+        cur = None; count = {}; restr = []; unrestricted = []
+        for line in so.splitlines():
+            m = re.match(r'^([\w$]+) /\* ', line)
+            if m:
+                cur = m.group(1); continue
+            m = re.search(r'CALL (?:.* := )?\*\(?.*?(\w+)\)\(', line) if 'CALL' in line else None
+            if m and cur and re.search(r'CALL (?:[^(]*? := )?\*', line):
+                count[cur] = count.get(cur, 0) + 1
+                member = m.group(1)
+                label = '%s.function_pointer_call.%d' % (cur, count[cur])
+                tg = [t for t in fp.get(member, []) if t in existing]
+                if tg:
+                    restr.append(label + '/' + ','.join(tg))
+                else:
+                    unrestricted.append(label + ' (' + member + ')')
+        res['fp_restricted'] = len(restr); res['fp_unrestricted'] = unrestricted
+        if restr:
+            cmd = ['goto-instrument']
+            for r_ in restr:
+                cmd += ['--restrict-function-pointer', r_]
+            cmd += ['a1.gb', 'a2.gb']
+            rc, so, se, dt = sh(cmd, 300, cwd=wd)
+            if rc != 0:
+                res['detail'] = 'goto-instrument --restrict-function-pointer failed: ' + (se + so)[-1500:]
+                return res
+            src_gb = 'a2.gb'
     # 2. contract instrumentation
     cmd = ['goto-instrument', '--dfcc', g['entry']]
     if g.get('enforce'):
@@ -109,7 +151,7 @@ def run_group(repo, unit, g, variant_defs=(), tag=''):
     if g.get('loop_contracts'):
         cmd += ['--apply-loop-contracts']
     cmd += g.get('instrument_flags', [])
-    cmd += ['a.gb', 'b.gb']
+    cmd += [src_gb, 'b.gb']
     rc, so, se, dt = sh(cmd, 600, cwd=wd)
     res['seconds']['goto-instrument'] = round(dt, 2)
     res['cmd_goto_instrument'] = ' '.join(cmd)
